@@ -46,6 +46,9 @@ func c08Cmd(t *rapid.T, pad string) []string {
 		[]string{"RENAME", k, k2}, []string{"RENAMENX", k, k2}, []string{"COPY", k, k2, "REPLACE"}, []string{"COPY", "l", "l2", "REPLACE"}, []string{"DEL", "a", "b", "c"}, []string{"EXISTS", "a", "b", "c"},
 		[]string{"SET", k, v}, []string{"GETSET", k, v}, []string{"GETDEL", k}, []string{"SETNX", k, v}, []string{"BITOP", "OR", "a", "a", "b"}, []string{"BITOP", "XOR", "c", "a", "b"},
 		[]string{"SETRANGE", "s", "1", "zz"}, []string{"SORT", "l", "ALPHA", "STORE", "l2"}, []string{"DBSIZE"},
+		// rejected commands: no part of them may be applied
+		[]string{"LMOVE", "l", "n", "LEFT", "RIGHT"}, []string{"RPOPLPUSH", "l", "h"}, []string{"SMOVE", "z", "n", "m"}, []string{"LMOVE", "l2", "z", "RIGHT", "LEFT"}, []string{"SUNIONSTORE", "z3", "z", "l"},
+		[]string{"RENAME", "nosuch", "a"}, []string{"MSETNX", "n", "1", "fresh", "2"}, []string{"INCR", "s"}, []string{"LPUSH", "n", "x"}, []string{"COPY", "l", "z"},
 	)
 }
 
